@@ -3,6 +3,7 @@ package charset
 import (
 	"bytes"
 	"encoding/xml"
+	"io"
 	"strings"
 	"unicode/utf8"
 
@@ -147,6 +148,9 @@ func FromXML(content []byte) string {
 func fromXML(content []byte) string {
 	content = trimLWS(content)
 	dec := xml.NewDecoder(bytes.NewReader(content))
+	// Only the declared label is needed, not the decoded text: without a
+	// CharsetReader the decoder refuses any declaration other than UTF-8.
+	dec.CharsetReader = func(_ string, in io.Reader) (io.Reader, error) { return in, nil }
 	rawT, err := dec.RawToken()
 	if err != nil {
 		return ""
